@@ -248,3 +248,55 @@ def seq_hook(seq, extra=None):
         return None
 
     return hook
+
+
+# ---------------------------------------------------------------- a structural slice reader
+SLICE_READ = "parse::read::SliceRead"
+
+
+def slice_reader(crate, seq):
+    """A SliceRead value over the concrete bytes `seq`, positioned at their start: its methods - written around
+    peek_byte, direct indexing or slice scans (`iter().position(..)`) alike - run as MIR on it."""
+    a = crate.adts.get(SLICE_READ)
+    if not a:
+        return None
+    fs = []
+    for f in a["variants"][0]["fields"]:
+        if "[u8]" in f["ty"]:
+            fs.append(sim.Ref([sim.Bytes(list(seq))], 0, ()))
+        elif f["ty"] == "usize":
+            fs.append(0)
+        else:
+            return None
+    return Adt(SLICE_READ, 0, fs)
+
+
+def slice_index(S, cell, path):
+    """The index field of the slice reader in `cell` as `path` left it."""
+    mine, _ = S._caller_env(cell, path, 0)
+    v = mine[0]
+    if isinstance(v, Adt) and v.adt == SLICE_READ:
+        for x in v.fields:
+            if isinstance(x, int):
+                return x
+    return None
+
+
+def slice_scan(crate, fn, seq, max_paths=4000):
+    """Run the SliceRead method `fn` (self, scratch, ...) on the bytes `seq`; returns (sim, [(path, final index)])."""
+    rd = slice_reader(crate, seq)
+    if rd is None:
+        return None, None
+    inl = helper_inline(crate)
+    S = sim.Sim([crate], inline=lambda a, b: inl(a, b) or (b.crate == crate.name and (b.self_ty or "").startswith(SLICE_READ)
+                                                          and not b.impl_trait and not b.path == fn.path),
+                max_paths=max_paths, max_depth=6, max_visits=len(seq) + 3)
+    S.structural_vec = True
+    cell = [rd]
+    args = {1: sim.Ref(cell, 0, ())}
+    if fn.arg_count >= 2 and "Vec<u8>" in fn.local_ty(2):
+        args[2] = sim.Ref([Adt("sim::Vec", 0, [sim.Tup([])])], 0, ())
+    out = []
+    for p in S.run(fn, args=args):
+        out.append((p, slice_index(S, cell, p)))
+    return S, out
